@@ -69,7 +69,7 @@ func registerAll() {
 		"crypto/rand":      "testing/cryptotest.SetGlobalRandom (seeded)",
 		"sync.Pool":        "stub: per-run reuse policy (LIFO / FIFO / drop / seeded)",
 		"goroutine scheduling": "simulator (token scheduler); Go runtime in the -race configuration",
-		"RPC over UDP, long-poll API, hijack, memcached stats": "not exercised",
+		"RPC over UDP, hijack, memcached stats": "not exercised",
 	}
 	properties["C35"] = &property{id: "C35", engine: "rpc", level: "fault_enumeration",
 		configs: []config{
@@ -84,7 +84,7 @@ func registerAll() {
 	}
 
 	callsAssume := []string{stdAssume, "token hand-off hides data races: the race clause of C38 is decided by config rpc-race (un-rewritten goroutine scheduling, -race)",
-		"RPC over UDP, long-poll API, hijack and memcached-stats paths are not exercised", "liveness is judged only after the last fault: 12 simulated minutes without completion while the server serves and every gate is open"}
+		"RPC over UDP, hijack and memcached-stats paths are not exercised; the long-poll API is exercised over TCP only (StartLongpoll from the sync handler, FinishLongpoll, empty response at 7/8 of the timeout, cancellation)", "liveness is judged only after the last fault: 12 simulated minutes without completion while the server serves and every gate is open"}
 	properties["C38"] = &property{id: "C38", engine: "rpc", level: "exploration",
 		configs: []config{
 			{name: "calls-faultfree", build: "rpc", params: map[string]any{"kind": "calls", "focus": "C38", "faults": "none"}, quick: tierCfg{wallSec: 15, detPct: 3}, thorough: tierCfg{wallSec: 600, detPct: 1}},
